@@ -135,6 +135,10 @@ def info_of(f):
     # grid extrapolations select the supplied congruences with Grid::relation_with(Congruence)
     if grid and "_extrapolation_assign/" in site and cond and "gen-divisor" in cond:
         info["class"] = "selection-by-relation_with-on-divisor"
+    if site.startswith("Pointset_Powerset<"):
+        info["routine"] = "Pointset_Powerset::BHZ03_widening_assign"
+    if grid:
+        info["domain"] = "Grid"
     return info
 
 
